@@ -7,7 +7,7 @@ From PV Require Import Gen.PinsC05.
 Import ListNotations.
 Theorem hand_modelled_sources_unchanged_C05 : PinsC05.pins = [
   ("src/pendulum/interval.py::Interval.__new__"%string, "87853506c4af18f659e8"%string);
-  ("src/pendulum/interval.py::Interval.__init__"%string, "643448d9b6917a3f0edc"%string);
+  ("src/pendulum/interval.py::Interval.__init__"%string, "bf8b98f81fbc3c9ccb28"%string);
   ("src/pendulum/duration.py::Duration.__new__"%string, "0196f5b0f9c20319ebae"%string);
   ("src/pendulum/duration.py::Duration.total_minutes"%string, "cc5ac604c73a1121357c"%string);
   ("src/pendulum/duration.py::Duration.total_hours"%string, "7283e6fe99b295d653f1"%string);
